@@ -237,7 +237,9 @@ OperBound == Cardinality(okeys) <= 2
 ConstsBound == Cardinality(consts) <= 2
 
 LockConfs == {LockF, LockG, LockH}
-LockFresh == {LockH}
+\* LockG2 re-registers an existing full name (with another object): rejected - by the lock first
+LockG2 == [ LockG EXCEPT !.deny = {"p"} ]
+LockFresh == {LockH, LockG2}
 HooksBound == Len(hooks) <= 2
 BV1 == {L1}
 NamesPQ == <<"p", "q">>
